@@ -867,7 +867,7 @@ func (pl *pxPools) freeOps(r *hx.Rng, n int) ([]pxOp, error) {
 }
 
 func genC08(o *hx.Out, r *hx.Rng, tier string, replay string) error {
-	o.Rule = "one ProjectionParser per run. proto cases: 2-5 projection expressions (.config, .fullname, .name, /k, plain keys; orders first/alpha/num/fixed lists; some with .unit) parsed in every order (all permutations up to 5 expressions = 120) or in a few orders including repeated Parse calls, then Residue, then a stream of 5-60 results over a growing set of config keys (file/internal, empty values), sub-name keys (duplicates, bare prefixes), gomaxprocs suffixes and units, every result projected through every projection and the residue. free cases: random interleavings of Parse (valid and failing), Residue (also repeated), Project and ProjectValues. In all streams about a tenth of the results have NO values (ProjectValues returns no Key), results recur, and new tuples over only the oldest config keys appear late and are projected 2-3 times. zero-values family: a ParseWithUnit projection holding .config, a result without values that brings 1-2 unseen config keys (also twice in a row), then results lacking those keys, the keys again with values; grow family: .config projections, the field set grown key by key, then new tuples over the 0-2 oldest keys projected repeatedly, more growth, the same tuples again; gomaxprocs family: /gomaxprocs and /size (or /a) with .fullname explicit or via Residue, fields shuffled and cut into 1-3 expressions, every parse order, on names spelling GOMAXPROCS as -N and as /gomaxprocs=N (X-8 next to X/gomaxprocs=8, X/size=1-8 next to X/size=1/gomaxprocs=8) and on 3-8 names per case whose last part or base name has a hyphen that is NOT a GOMAXPROCS suffix (RW/gomaxprocs=4/mode=read-only, Foo-bar, a-1x, x-, x--8, X/size=1-8x, ... alone, next to /gomaxprocs=N and next to a genuine -N); live families (the code is handed ONE Result mutated in place, the model the snapshot taken at each call): reader family = a benchmark file of 6-18 results read by benchfmt.Reader and projected WITHOUT Clone, between consecutive results mostly one file key changing to another value of the same byte length (goarch amd64->arm64; the Reader overwrites the bytes), also other lengths, deletions (key:), new keys, repeated results; edit family = a struct-literal Result whose cfg.Value bytes are overwritten in place (copy / append(v[:0],...)), SetConfig (internal, delete), name and values rewritten in their buffers; both through .config alone / .config,.fullname / a single file key (+residue) / .config with .unit / .fullname (residue = .config alone); config-only family: a projection consisting of the .config group alone (.config, or the residue when .fullname is taken, also minus an individually projected key, also with .unit) whose first one or two results carry no file configuration at all (none, internal keys only, only the individually projected key), keys then arriving one by one as PAIRS of results differing in that key only, the empty configuration again after the growth; prefix-key family: an individually projected (or additionally parsed = ignored) sub-name key that is a proper prefix of another sub-name key present in the names (/size vs /sizeclass, /n vs /nodes, /a vs /ab, /gomaxprocs vs /gomaxprocsx, /b vs /b.c; either one excluded), .fullname explicit or via Residue, names with both keys in both orders, pairs differing only in the longer key; kept-slices family (c08late.go): 1-2 ParseWithUnit / Parse projections (+ Residue), then 2-4 ProjectValues calls on the SAME projection with results of 2-6 measurements each (other tuples, other unit orders, longer and shorter value lists than the call before), interleaved with Project / ProjectValues on the other projections, the caller KEEPING every returned slice and reading it again after every later call (key == classes, Key.Get of every field, the .unit value per position). non-trivial = every case; distinct by expression texts and stream"
+	o.Rule = "one ProjectionParser per run. proto cases: 2-5 projection expressions (.config, .fullname, .name, /k, plain keys; orders first/alpha/num/fixed lists; some with .unit) parsed in every order (all permutations up to 5 expressions = 120) or in a few orders including repeated Parse calls, then Residue, then a stream of 5-60 results over a growing set of config keys (file/internal, empty values), sub-name keys (duplicates, bare prefixes), gomaxprocs suffixes and units, every result projected through every projection and the residue. free cases: random interleavings of Parse (valid and failing), Residue (also repeated), Project and ProjectValues, every returned Key judged against the inputs (free_ok). failed-parse family (c08fail.go): 1-3 valid and 1-2 rejected expressions (unknown order, .config with a fixed list, .unit, empty key next to fields naming keys of the stream, .config, .fullname) parsed in every order (<= 3 expressions) or 4 orders, Residue, 4-12 results through every returned projection and the residue; plus the audit witnesses verbatim (goos,.unit / .config,.unit / /a,.fullname,k@bogus rejected, then .fullname or .config, results differing in goos or /a only). In all streams about a tenth of the results have NO values (ProjectValues returns no Key), results recur, and new tuples over only the oldest config keys appear late and are projected 2-3 times. zero-values family: a ParseWithUnit projection holding .config, a result without values that brings 1-2 unseen config keys (also twice in a row), then results lacking those keys, the keys again with values; grow family: .config projections, the field set grown key by key, then new tuples over the 0-2 oldest keys projected repeatedly, more growth, the same tuples again; gomaxprocs family: /gomaxprocs and /size (or /a) with .fullname explicit or via Residue, fields shuffled and cut into 1-3 expressions, every parse order, on names spelling GOMAXPROCS as -N and as /gomaxprocs=N (X-8 next to X/gomaxprocs=8, X/size=1-8 next to X/size=1/gomaxprocs=8) and on 3-8 names per case whose last part or base name has a hyphen that is NOT a GOMAXPROCS suffix (RW/gomaxprocs=4/mode=read-only, Foo-bar, a-1x, x-, x--8, X/size=1-8x, ... alone, next to /gomaxprocs=N and next to a genuine -N); live families (the code is handed ONE Result mutated in place, the model the snapshot taken at each call): reader family = a benchmark file of 6-18 results read by benchfmt.Reader and projected WITHOUT Clone, between consecutive results mostly one file key changing to another value of the same byte length (goarch amd64->arm64; the Reader overwrites the bytes), also other lengths, deletions (key:), new keys, repeated results; edit family = a struct-literal Result whose cfg.Value bytes are overwritten in place (copy / append(v[:0],...)), SetConfig (internal, delete), name and values rewritten in their buffers; both through .config alone / .config,.fullname / a single file key (+residue) / .config with .unit / .fullname (residue = .config alone); config-only family: a projection consisting of the .config group alone (.config, or the residue when .fullname is taken, also minus an individually projected key, also with .unit) whose first one or two results carry no file configuration at all (none, internal keys only, only the individually projected key), keys then arriving one by one as PAIRS of results differing in that key only, the empty configuration again after the growth; prefix-key family: an individually projected (or additionally parsed = ignored) sub-name key that is a proper prefix of another sub-name key present in the names (/size vs /sizeclass, /n vs /nodes, /a vs /ab, /gomaxprocs vs /gomaxprocsx, /b vs /b.c; either one excluded), .fullname explicit or via Residue, names with both keys in both orders, pairs differing only in the longer key; kept-slices family (c08late.go): 1-2 ParseWithUnit / Parse projections (+ Residue), then 2-4 ProjectValues calls on the SAME projection with results of 2-6 measurements each (other tuples, other unit orders, longer and shorter value lists than the call before), interleaved with Project / ProjectValues on the other projections, the caller KEEPING every returned slice and reading it again after every later call (key == classes, Key.Get of every field, the .unit value per position). non-trivial = every case; distinct by expression texts and stream"
 	pl := &c08Pools
 	mul := 1
 	if tier == "thorough" {
@@ -934,6 +934,15 @@ func genC08(o *hx.Out, r *hx.Rng, tier string, replay string) error {
 			return err
 		}
 		if err := c08Prefix(o, r, pl); err != nil {
+			return err
+		}
+	}
+	// audit class (c08fail.go): protocol-shaped histories with rejected expressions
+	if err := c08FailedFixed(o, r); err != nil {
+		return err
+	}
+	for i := 0; i < 40*mul; i++ {
+		if err := c08Failed(o, r, pl); err != nil {
 			return err
 		}
 	}
